@@ -30,7 +30,10 @@ VARIANTS = {
                '-fsanitize=address,undefined', '-fsanitize-recover=address,undefined',
                '-fno-omit-frame-pointer'],
 }
+# san + float-cast-overflow (not part of -fsanitize=undefined in clang 14): a NaN / out-of-range double cast to an integer traps
+VARIANTS['sanfc'] = VARIANTS['san'] + ['-fsanitize=float-cast-overflow', '-fno-sanitize-recover=float-cast-overflow']
 LINK = {
+    'sanfc': ['clang++', '-fsanitize=address,undefined,float-cast-overflow'],
     'plain': ['g++'], 'plain0': ['g++'],
     'san': ['clang++', '-fsanitize=address,undefined'],
     'sanrec': ['clang++', '-fsanitize=address,undefined'],
